@@ -151,7 +151,7 @@ def term(draw, families=FAMILIES):
 @st.composite
 def task_spec(draw, encodings=ENCODINGS, minmax=("min", "max"), families=FAMILIES, max_dim=8,
               classes=BOUND_CLASSES, seeded=True, styles=("direct", "direct", "transform"),
-              allow_multi_objective_max=True, mutating=0.1, array_rows=0.0):
+              allow_multi_objective_max=True, mutating=0.1, array_rows=0.0, integer=0.1):
     enc = draw(st.sampled_from(encodings))
     vs = draw(variables(enc, max_dim=max_dim, classes=classes))
     mm = draw(st.sampled_from(minmax))
@@ -165,12 +165,25 @@ def task_spec(draw, encodings=ENCODINGS, minmax=("min", "max"), families=FAMILIE
         spec["weights"] = [draw(st.sampled_from([0.0, 0.3, 0.5, 1.0, 2.0])) for _ in range(k)]
     else:
         style = draw(st.sampled_from(styles))
+        if len(vs) >= 2 and draw(st.integers(0, 5)) == 0:
+            # variables whose names were left at the library default ("var") or that share one name: accepted by
+            # Task (names only key transform_solution, so these tasks read the position directly)
+            spec["naming"] = draw(st.sampled_from(["default", "shared"]))
+            for v in vs:
+                if spec["naming"] == "default":
+                    v.pop("name", None)
+                else:
+                    v["name"] = "v"
+            style = "direct"
         spec["objective"] = {"terms": [draw(term(families))], "salt": salt, "style": style}
     if seeded:
         spec["seed"] = draw(st.one_of(st.sampled_from([0, 1, 42, 2 ** 31 - 1, 2 ** 32 - 1]),
                                       st.integers(0, 2 ** 32 - 1)))
     if mutating > 0 and draw(_f(0.0, 1.0)) < mutating:
         spec["objective"]["mutates_argument"] = True
+    if integer > 0 and enc != "multi_objective" and draw(_f(0.0, 1.0)) < integer:
+        # an objective that counts (a number of violated constraints, a path length in hops): Python int or numpy int64
+        spec["objective"]["integer"] = draw(st.sampled_from(["py", "np"]))
     if array_rows > 0 and enc == "multi_objective" and draw(_f(0.0, 1.0)) < array_rows:
         spec["objective"]["array_rows"] = True
     spec["encoding"] = enc
